@@ -33,5 +33,8 @@ pub fn run(tier: &str, seed: u64, only: Option<&str>) -> Run {
     }
     // nested-object generation from raw slider parameters (SLEV / OSLD / JUICE / ONER lines)
     crate::nested::run(&mut run, tier, seed, only);
+    // convert_objects (osu!, catch) from decoded objects (OCONV / LTT / CCONV lines)
+    crate::conv::run_osu(&mut run, tier, seed, only);
+    crate::conv::run_catch(&mut run, tier, seed, only);
     run
 }
